@@ -1011,7 +1011,7 @@ class CObs:
                             derived_observable(lambda x, **kwargs: x[2] * x[1] + x[0] * x[3],
                                                [self.real, other.real, self.imag, other.imag],
                                                man_grad=[other.imag.value, self.imag.value, other.real.value, self.real.value]))
-            elif getattr(other, 'imag', 0) != 0:
+            elif isinstance(other.imag, Obs) or other.imag != 0:
                 return CObs(self.real * other.real - self.imag * other.imag,
                             self.imag * other.real + self.real * other.imag)
             else:
